@@ -246,6 +246,27 @@ def r01_3(ctx):
                 bb, t = sers[0]
                 tr = trace(ser_body, t["args"][1])
                 ok = any(s[0] == "downcast" and s[1] == vn for s in tr.steps) and not [s for s in tr.steps if s[0] not in ("use", "ref", "deref", "field", "downcast")] and (fn_of(t).get("args") or ["", ""])[-1].startswith("&std::vec::Vec<")
+            elif role == "Seq" and names == ["serialize_seq", "serialize_element", "end"]:
+                # collect_seq written out by hand: serialize_seq, then every element of the payload vector in its own
+                # order (a plain `for e in v` / `v.iter()`), then end
+                (sb_, st_), (eb_, et_), (nb_, nt_) = sers
+                itr = trace(ser_body, et_["args"][1])
+                from_next = bool(itr.origin and itr.origin[0] == "call" and (fn_of(itr.origin[2]) or {}).get("trait") == "std::iter::Iterator" and (fn_of(itr.origin[2]) or {}).get("name") == "next" and (fn_of(itr.origin[2]) or {}).get("self_ty", "").startswith("std::slice::Iter<") and any(s_[0] == "downcast" and s_[1] == "Some" for s_ in itr.steps))
+                over_payload = False
+                if from_next:
+                    src = trace(ser_body, itr.origin[2]["args"][0], passthrough_extra=("std::iter::IntoIterator::into_iter", "core::slice::<impl [T]>::iter", "std::ops::Deref::deref"))
+                    defs_ = src.origin[2] if src.origin and src.origin[0] == "multi" else None
+                    if defs_:
+                        for _, _, k2, p2 in defs_:
+                            if k2 == "assign" and p2["rv"]["k"] == "use":
+                                t3 = trace(ser_body, p2["rv"]["op"], passthrough_extra=("std::iter::IntoIterator::into_iter", "core::slice::<impl [T]>::iter", "std::ops::Deref::deref"))
+                                over_payload = over_payload or any(s_[0] == "downcast" and s_[1] == vn for s_ in t3.steps)
+                            elif k2 == "call":
+                                t3 = trace(ser_body, p2["args"][0], passthrough_extra=("std::iter::IntoIterator::into_iter", "core::slice::<impl [T]>::iter", "std::ops::Deref::deref")) if p2["args"] else None
+                                over_payload = over_payload or bool(t3 and any(s_[0] == "downcast" and s_[1] == vn for s_ in t3.steps))
+                    else:
+                        over_payload = any(s_[0] == "downcast" and s_[1] == vn for s_ in src.steps)
+                ok = from_next and over_payload and ser_body.on_cycle(eb_) and not ser_body.on_cycle(sb_) and not ser_body.on_cycle(nb_) and ser_body.dominates(sb_, eb_)
             y_of[vn] = "serialize(" + var["fields"][0]["ty"] + ")" if ok else None
             ctx.ob(f"out:{vn}:delegates-to-payload", ok, site(ser_body, tgt[idx]), f"serialises the {vn} payload through its own Serialize impl" if ok else f"calls {names}")
         elif role == "Map":
@@ -292,7 +313,16 @@ def r01_3(ctx):
                 v = strace(msup, n_, t_["args"][2])
                 kf = [s_[1] for s_ in k.steps if s_[0] == "field"]
                 vf = [s_[1] for s_ in v.steps if s_[0] == "field"]
-                ok = kf[:1] == ["0"] and vf[:1] == ["1"] and msup.on_cycle(n_)
+                looped = msup.on_cycle(n_)
+                if not looped and n_[0]:
+                    # `pairs.iter().try_for_each(|(k, v)| map.serialize_entry(k, v))`: the closure runs once per pair,
+                    # in the slice iterator's order
+                    caller_id, cbb_, callee_id = n_[0][-1]
+                    ppath_ = n_[0][:-1]
+                    caller_ = msup.body_of((ppath_, 0)) if ppath_ else msup.root
+                    cf_ = fn_of(caller_.blocks[cbb_]["term"]) or {}
+                    looped = cf_.get("trait") == "std::iter::Iterator" and cf_.get("name") in ("try_for_each", "for_each") and (cf_.get("self_ty") or "").startswith("std::slice::Iter<")
+                ok = kf[:1] == ["0"] and vf[:1] == ["1"] and looped
                 detail = f"serialize_entry(key = .{kf[:1]}, value = .{vf[:1]}) in the loop over the pair vector"
                 endc = [x for x in msers if fn_of(x[1])["name"] == "end"]
                 ok = ok and len(endc) == 1 and not msup.on_cycle(endc[0][0])
@@ -355,6 +385,20 @@ def r01_3(ctx):
             src = tr.origin[2] if tr.origin and tr.origin[0] == "call" else None
             # element comes from the accessor's next_* result
             ok = bool(src and (fn_of(src) or {}).get("name") in ("next_element", "next_entry", "next_element_seed", "next_entry_seed"))
+        elif len(pushes) == 1 and not bad and pushes[0][0][0]:
+            # the loop as an iterator pipeline: `iter::from_fn(|| acc.next_element().transpose()).try_fold(vec, |mut v, e|
+            # { v.push(e?); Ok(v) })` — from_fn yields the accessor's items one by one, try_fold visits them in that order
+            pn = pushes[0][0]
+            caller_id, cbb_, callee_id = pn[0][-1]
+            ppath_ = pn[0][:-1]
+            caller_ = vsup.body_of((ppath_, 0)) if ppath_ else vsup.root
+            cf_ = fn_of(caller_.blocks[cbb_]["term"]) or {}
+            folds = cf_.get("trait") == "std::iter::Iterator" and cf_.get("name") in ("try_fold", "fold", "try_for_each", "for_each") and (cf_.get("self_ty") or "").startswith("std::iter::FromFn<")
+            nexts = {(n_[0][-1][2], n_[1]) for n_, _, t in vsup.calls() if (fn_of(t) or {}).get("name") in ("next_element", "next_entry", "next_element_seed", "next_entry_seed") and n_[0]}
+            cb_ = vsup.body_of(pn)
+            ptr = trace(cb_, pushes[0][1]["args"][1], passthrough_extra=("std::ops::Try::branch",))
+            from_item = bool(ptr.origin and ptr.origin[0] == "arg" and ptr.origin[1] >= 2)
+            ok = bool(folds and len(nexts) == 1 and from_item)
         ctx.ob(f"in:{it['name']}:push-in-arrival-order", ok, site(b), "each accessor item is pushed once, in order" if ok else f"vector is built otherwise (pushes={len(pushes)}, other mutations={bad})")
 
 
@@ -466,5 +510,5 @@ def r06_1(ctx):
            "serde_json parses floats with best-effort precision: xt's own JSON output may not re-parse to the same value")
     # both JSON arms construct serde_json deserializers (so the feature is the one that matters)
     ep = common.input_entry_points(ctx.facts)["json"]
-    ctors = [fn_of(t)["def"] for _, _, t in Super(lib, ep, depth=2).calls() if (fn_of(t) or {}).get("crate") == "serde_json" and "Deserializer" in fn_of(t)["def"] and fn_of(t)["name"].startswith("from_")]
+    ctors = [fn_of(t)["def"] for _, _, t in Super(lib, ep, depth=2).calls() if (fn_of(t) or {}).get("crate") == "serde_json" and "Deserializer" in fn_of(t)["def"] and (fn_of(t)["name"].startswith("from_") or fn_of(t)["name"] == "new")]
     ctx.ob("json-reader-is-serde_json", len(ctors) >= 2, site(ep), f"JSON input is parsed by {ctors}")
